@@ -181,6 +181,7 @@ def analyse(prog, f, param_classes=None, callargs=None):
             return dimvar[t[2]]
         return None
     # classes of int variables
+    extsrc = set()
     cls = collections.defaultdict(set)
     copies = collections.defaultdict(set)
     decremented = set()
@@ -221,6 +222,10 @@ def analyse(prog, f, param_classes=None, callargs=None):
             if src is not None:
                 copies[n].add(src)
                 continue
+            if isinstance(r, list) and r and r[0] == "i" and is_var(strip(r[1])) and f.param_index(strip(r[1])[2]) is not None \
+                    and "int" in (f.params[f.param_index(strip(r[1])[2])][1] or ""):
+                extsrc.add(n)          # an element of a caller's index list: of unknown space until a range guard says which
+                continue
             cls[n].add("?")
     for bid in f.live:
         bl = f.blocks[bid]
@@ -255,6 +260,9 @@ def analyse(prog, f, param_classes=None, callargs=None):
     for pn, pc in (param_classes or {}).items():
         if pn not in cls or cls[pn] == {"?"}:
             cls[pn] = {pc}
+    for n in extsrc:
+        if not cls.get(n):
+            cls[n].add("?")            # never range-guarded in this function
     typed = {n: list(v)[0] for n, v in cls.items() if len(v) == 1 and list(v)[0] != "?"}
 
     # loops: header block -> (body blocks, bounded variable classes)
